@@ -690,6 +690,48 @@ def subst_params(e, actual, depth=0):
     return n
 
 
+def adt_helpers(facts, body, depth=2):
+    """methods of the same type that `body` calls (transitively, up to `depth`): the pieces an `extract method` refactoring
+    of body would produce"""
+    out = []
+    seen = {body.path}
+    frontier = [body]
+    for _ in range(depth):
+        nxt = []
+        for b in frontier:
+            for bb, t in b.calls():
+                for q in Body.callee_qs(t):
+                    for hb in facts.by_q.get(q, []):
+                        if hb.kind != "closure" and hb.self_adt == body.self_adt and hb.self_adt and hb.path not in seen:
+                            seen.add(hb.path)
+                            out.append(hb)
+                            nxt.append(hb)
+        frontier = nxt
+    return out
+
+
+def expand_local_call(facts, e, depth=0):
+    """If e is a call to a crate-local function whose body has exactly one (non-diverging) return definition, return
+    that return expression with the parameters replaced by the actual arguments (repeatedly, up to 3 levels); else e.
+    Lets structural rules see through small pure helpers (`wpos_plus(k)` for `(k + wpos) % capacity()`)."""
+    p = peel(e, through_try=False)
+    if p is None or p.k != "call" or depth > 3:
+        return e
+    for q in (p.rq, p.q):
+        bodies = facts.by_q.get(q, []) if q else []
+        if len(bodies) != 1:
+            continue
+        cb = bodies[0]
+        if cb.kind == "closure" or len(p.args or []) != cb.argc:
+            continue
+        rets = [r for _, _, r in assigns_to_return(cb)]
+        if len(rets) != 1:
+            continue
+        actual = {i + 1: a for i, a in enumerate(p.args)}
+        return expand_local_call(facts, subst_params(peel(rets[0], through_try=False), actual), depth + 1)
+    return e
+
+
 def only_params_and_consts(e, depth=0):
     e = peel(e, through_try=False)
     if e is None or depth > 12:
